@@ -328,7 +328,7 @@ def fold_serial_rule(m: Model):
         br, other = Br('b'), Br('other')
         br.has_map = lambda mp, populated=populated: ('world' in mp and mp['world'] in populated) if set(mp) == {'world'} else False
         br.new_world = lambda: 9
-        rule = Cache()
+        rule = Cache(__srcclass__=(m, ClassRef(RULES, 'access.Serial')))     # helper methods the producer may be split into resolve through the class
         rule['UnserialWorlds'] = {br: set(unserial)}
         rule['MaxWorlds'] = Obj('MaxWorlds', is_exceeded=lambda b, exceeded=exceeded: exceeded, is_reached=lambda b, exceeded=exceeded: exceeded)
         hist = {'none': [], 'serial-same-branch': [Entry('OTHER', br), Entry(rule, br)], 'serial-other-branch': [Entry(rule, other)],
